@@ -69,6 +69,10 @@ def type_test(ip, st, v, tyname):
         if isinstance(v, Opaque) and v.sort in ("V", "Obj", "Val"):
             if v.sort == "Val":
                 return FALSE      # Val models scalars and dicts only
+            if v.sort == "V" and tyname == "list" and ip.c is not None and ip.c.ghost.get("v_not_list"):
+                # Contract(ghost={"v_not_list": True}): typing assumption of the unit, listed among its assumptions
+                ip.assumptions.add("typing assumption of %s: abstract flow values (sort V) are not python lists" % ip.c.name)
+                return FALSE
             f = ip.reg.ufun("is_%s_%s" % (tyname, v.sort), [v.sort], "Bool")
             return T("(%s %s)" % (f, v.t.s), "Bool")
         return FALSE
@@ -116,10 +120,22 @@ def ext_instance(ip, t, mod, name):
 def isinstance_(ip, st, v, cls):
     if type(v).__name__ == "Padded":
         raise U("isinstance of an item of a zip_longest row")
+    if isinstance(v, Opaque) and v.sort == "Unk":
+        raise U("isinstance of a value nothing is known about (a havocked field no class spec declares)")
     if isinstance(cls, Tup):
-        return OR(*[isinstance_(ip, st, v, c) for c in cls.items])
+        parts = []
+        for c in cls.items:
+            r = isinstance_(ip, st, v, c)
+            if r.s == "true":
+                return TRUE       # (a member that certainly matches decides the test; the others need not be modelled)
+            parts.append(r)
+        return OR(*parts)
     if isinstance(cls, Fun) and cls.kind == "builtin":
         return type_test(ip, st, v, cls.name)
+    if isinstance(cls, Fun) and cls.kind == "lib" and getattr(cls.impl, "ext_class", None):
+        # a third-party CLASS whose constructor has a library model (jinja2.Template, pyvc/lib_fmt.py): as a class it is
+        # the external class of that name
+        cls = Fun("external", mod=cls.impl.ext_class[0], name=cls.impl.ext_class[1])
     if isinstance(cls, Fun) and cls.kind == "external":
         # a class of a third-party library (jinja2.Template): for a context value an abstract predicate -- a dictionary
         # is no instance of it, a scalar (an arbitrary python object) may be
@@ -214,6 +230,8 @@ def has_attr(ip, st, v, name):
 def is_callable(ip, st, v):
     if type(v).__name__ == "Padded":
         raise U("callable() of an item of a zip_longest row")
+    if isinstance(v, Opaque) and v.sort == "Unk":
+        raise U("callable() of a value nothing is known about (a havocked field no class spec declares)")
     if isinstance(v, Fun):
         if v.kind == "elem-method":
             # "the element has this attribute and it is callable" (abstract predicate over element and attribute name)
@@ -250,11 +268,21 @@ def call_builtin(ip, st, name, pos, kws, node):
                 n = Num(I(len(cell.items)))
                 n.exact = True          # (comparisons of it with integer literals are decided syntactically: Interp.py_eq)
                 return [(st, n)]
+            if type(cell).__name__ == "SymSetCell":
+                from .lib_graph import symset_len          # number of distinct members
+                return [(st, symset_len(ip, st, cell))]
             if isinstance(cell, PyDictCell):
                 return [(st, Num(I(len(cell.items))))]
             if type(cell).__name__ == "IterLstCell":
                 from .lib_sib import iterlst_len
                 return [(st, iterlst_len(ip, st, cell, v))]
+            if isinstance(cell, ObjCell) and not v.path and not ip.spec_mode and cell.cls != "$file":
+                # len(obj) of an instance of a repository class: python calls type(obj).__len__(obj)
+                k = ip.contracts.find_method(cell.cls, "__len__")
+                if k is None:
+                    raise U("len() of an instance of %s: no contract for __len__" % cell.cls)
+                from .calls import apply_contract
+                return apply_contract(ip, st, k, [v], {})
             if isinstance(cell, ValCell):
                 f = reg.ufun("vlen", ["Val"], "Int")
                 t = T("(%s %s)" % (f, ip.deref(st, v).s), "Int")
@@ -264,6 +292,9 @@ def call_builtin(ip, st, name, pos, kws, node):
             return [(st, Num(T("(%s %s)" % (f, v.t.s), "Int")))]
         if isinstance(v, Str):
             return [(st, Num(I(len(v.s))))]
+        if isinstance(v, Opaque) and v.sort == "Key":
+            f = reg.ufun("klen", ["Key"], "Int")          # len of a symbolic string: a function of it (nothing assumed)
+            return [(st, Num(T("(%s %s)" % (f, v.t.s), "Int")))]
         if isinstance(v, Opaque) and v.sort == "V":
             from .vmembers import attr_value          # len() of an abstract flow value: declared v_members {"__len__": "attr:Int"}
             r = attr_value(ip, v, "__len__")
@@ -291,12 +322,20 @@ def call_builtin(ip, st, name, pos, kws, node):
             return [(st, rv)]
         raise U("range with step")
     if name == "enumerate":
+        if len(pos) == 1 and isinstance(pos[0], Opaque) and pos[0].sort == "Obj" and not ip.spec_mode:
+            # iterating an abstract object is not modelled: such a path must be infeasible (obligation), it is not continued
+            ip.emit("safety", "enumerate over an abstract object: the path is infeasible (iterating it is not modelled)", st, FALSE)
+            return []
         v = ip.as_view(st, pos[0])
         if v.items is not None:
             return [(st, ip.items_view([Tup([Num(I(k)), x]) for k, x in enumerate(v.items)]))]
         return [(st, View(v.len, lambda i: Tup([Num(i), v.get(i)])))]
     if name == "zip":
         if any(isinstance(p, Ref) and isinstance(st.heap.get(p.cid), IterCell) for p in pos):
+            from .lib_graph import zip_concrete          # iterators over a known number of items (itertools.chain(a, b))
+            r = zip_concrete(ip, st, pos)
+            if r is not None:
+                return r
             from .lib_flow import zip_iter          # zip(range(n), <iterator>): pulls lazily, at most n values
             return zip_iter(ip, st, pos)
         views = [ip.as_view(st, p) for p in pos]
@@ -343,6 +382,11 @@ def call_builtin(ip, st, name, pos, kws, node):
         if name == "int" and len(pos) == 1 and (isinstance(v, Str) or (isinstance(v, Opaque) and v.sort == "Key")):
             from .lib_split import int_of_string          # int("12") / ValueError
             return int_of_string(ip, st, v)
+        if name == "float" and len(pos) == 1 and isinstance(v, Opaque) and v.sort == "V":
+            from .vmembers import attr_value          # float() of an abstract flow value: declared v_members {"__float__": "attr:Real"}
+            r = attr_value(ip, v, "__float__")
+            if r is not None:
+                return [(st, r)]
         x = ip.num(v)
         if name == "float":
             return [(st, Num(to_real(x)))]
@@ -372,8 +416,23 @@ def call_builtin(ip, st, name, pos, kws, node):
             r = ITE(CMP("<" if name == "min" else ">", x, r), x, r)
         return [(st, Num(r))]
     if name in ("all", "any"):
-        v = consume_view(ip, st, pos[0])
+        from .lib_acc2 import valset_members          # all / any over a set of context values: over its members
+        v = valset_members(ip, st, pos[0]) or consume_view(ip, st, pos[0])
+        n_c, n_v, n_e = len(reg.const_decls), len(ip.vcs), len(ip._exc_out)
         t = quant(ip, "forall" if name == "all" else "exists", v, lambda x: ip.truth(st, x))
+        if len(reg.const_decls) > n_c and v.items is None and getattr(v, "lazy", False) and getattr(v, "get2", None) is not None \
+                and not ip.spec_mode and not getattr(ip, "bound_guards", None):
+            # all / any over a generator expression of symbolic length whose ITEMS introduce unknowns (results of callees):
+            # under the quantifier the facts about them are lost (and their exceptional paths have no state of their own).
+            # The items are pure values: the generator expression is evaluated as the list comprehension with the same
+            # items (histlib.symbolic_listcomp: one generic item explored, unknowns as functions of the index), then
+            # quantified.  (Over-approximates short-circuit evaluation: an exception of ANY item is explored.)
+            from .histlib import symbolic_listcomp
+            del ip.vcs[n_v:]
+            del ip._exc_out[n_e:]
+            lv = symbolic_listcomp(ip, st, st, v)
+            v2 = ip.as_view(st, lv) if isinstance(lv, Ref) else lv
+            t = quant(ip, "forall" if name == "all" else "exists", v2, lambda x: ip.truth(st, x))
         return [(st, Bool(t))]
     if name == "sum":
         v = consume_view(ip, st, pos[0])
@@ -414,6 +473,13 @@ def call_builtin(ip, st, name, pos, kws, node):
         return [(st, ip.new_cell(st, LstCell(t)))]
     if name == "iter":
         v = pos[0]
+        if isinstance(v, (Num, Bool, NoneV)) and len(pos) == 1:
+            # iter(<number>): TypeError ('float' object is not iterable)
+            if ip.may_catch(st, "TypeError"):
+                ip.raise_(st, "TypeError")
+            else:
+                ip.emit("safety", "iter() of a number (TypeError)", st, FALSE)
+            return []
         if isinstance(v, Ref) and isinstance(st.heap[v.cid], IterCell):
             return [(st, v)]
         if isinstance(v, Ref) and isinstance(st.heap[v.cid], LstCell):
@@ -435,6 +501,9 @@ def call_builtin(ip, st, name, pos, kws, node):
     if name in ("str", "repr"):
         if pos and isinstance(pos[0], Str) and name == "str":
             return [(st, pos[0])]
+        if pos and isinstance(pos[0], Num) and ip.c is not None and ip.c.ghost.get("str_format"):
+            from .lib_graph import num_text          # opt-in: str(x) / repr(x) of a number as a function of the number
+            return [(st, num_text(ip, pos[0], name))]
         if pos and isinstance(pos[0], Opaque) and pos[0].sort == "Val":
             f = reg.ufun("str_of_val", ["Val"], "Key")
             return [(st, Opaque(T("(%s %s)" % (f, pos[0].t.s), "Key")))]
@@ -479,6 +548,14 @@ def call_builtin(ip, st, name, pos, kws, node):
             return [(st, Fun("super", cls=pos[0].name, self_ref=pos[1]))]
         raise U("super() without explicit (Class, self)")
     if name == "setattr":
+        if len(pos) == 3 and not kws and isinstance(pos[1], Str) and isinstance(pos[0], Ref) and not pos[0].path \
+                and isinstance(st.heap.get(pos[0].cid), ObjCell) and not ip.spec_mode:
+            # setattr(obj, "<literal name>", value) on an instance: the statement `obj.<name> = value` (stmts.assign_to)
+            cell = st.heap[pos[0].cid]
+            fields = dict(cell.fields)
+            fields[pos[1].s] = pos[2]
+            st.heap[pos[0].cid] = ObjCell(cell.cls, fields)
+            return [(st, NONE)]
         raise U("setattr with computed name")
     if name in ("object.__setattr__", "object.__getattribute__"):
         if not (len(pos) >= 2 and isinstance(pos[0], Ref) and isinstance(st.heap[pos[0].cid], ObjCell) and isinstance(pos[1], Str)):
@@ -546,7 +623,65 @@ def consume_view(ip, st, v):
             ucell = st.heap[under.cid]
             st.heap[under.cid] = IterCell(ucell.src, nc.cursor, ucell.name, ucell.limit)
         return rest
+    if isinstance(v, Ref) and not v.path and isinstance(st.heap.get(v.cid), ObjCell) and not ip.spec_mode:
+        return instance_iter_view(ip, st, v)
     return ip.as_view(st, v)
+
+
+def instance_iter_view(ip, st, v):
+    """everything an INSTANCE of a repository class delivers when it is iterated (list.extend(obj), list(obj)): python
+    calls type(obj).__iter__(obj).  Modelled only when the first class of the instance's class chain (ClassSpec.alias_of /
+    bases, real `class` statements) that defines __iter__ has an inline=True contract for it -- its real body is executed in
+    place -- and the call neither forks nor raises; what it returns is then consumed.  Anything else: out-of-subset."""
+    import ast as _ast
+    cls = st.heap[v.cid].cls
+    definer, seen, todo = None, set(), [cls]
+    while todo and definer is None:
+        k = todo.pop(0)
+        if k in seen:
+            continue
+        seen.add(k)
+        cs = ip.contracts.classes.get(k)
+        if cs is None:
+            continue
+        real = cs.alias_of or k
+        try:
+            tree = ip.world.modctx(cs.file).tree
+        except Exception:
+            raise U("iteration over an instance of %s: module of %s not readable" % (cls, k))
+        nxt = []
+        for n in _ast.walk(tree):
+            if isinstance(n, _ast.ClassDef) and n.name == real:
+                if any(isinstance(b, _ast.FunctionDef) and b.name == "__iter__" for b in n.body):
+                    definer = real
+                for b in n.bases:
+                    bn = b.attr if isinstance(b, _ast.Attribute) else b.id if isinstance(b, _ast.Name) else None
+                    if bn == "object":
+                        continue
+                    if not bn or bn not in ip.contracts.classes:
+                        raise U("iteration over an instance of %s: base class %s has no ClassSpec" % (cls, bn))
+                    nxt.append(bn)
+        todo = nxt + todo
+    k = ip.contracts.find_method(cls, "__iter__")
+    if definer is None or k is None or not k.inline or k.qual != definer + ".__iter__":
+        raise U("iteration over an instance of %s: no inline contract for the __iter__ its class defines" % cls)
+    from .calls import inline_contract
+    n_exc = len(ip._exc_out)
+    outs = inline_contract(ip, st, k, [v], {})
+    if len(outs) != 1 or len(ip._exc_out) != n_exc:
+        raise U("iteration over an instance of %s: __iter__ forks or raises" % cls)
+    s2, r = outs[0]
+    st.heap, st.pc, st.notes, st.trace = s2.heap, s2.pc, s2.notes, s2.trace
+    if isinstance(r, Ref) and not r.path and isinstance(st.heap.get(r.cid), ObjCell):
+        raise U("iteration over an instance of %s: __iter__ returns an instance" % cls)
+    rc = st.heap.get(r.cid) if isinstance(r, Ref) else None
+    if isinstance(rc, IterCell) and getattr(rc, "live", None) is not None and lit_int(rc.cursor) == 0 and rc.limit is None:
+        # a new iterator over a list object (`return self._seq.__iter__()`), consumed at once: the list's present items.
+        # (The consumer must not be that very list: `live_cid` lets list.extend refuse it.)
+        view = ip.lst_view(ip.deref(st, rc.live))
+        view.live_cid = rc.live.cid
+        return view
+    return consume_view(ip, st, r)
 
 
 def call_method(ip, st, recv, name, pos, kws, node):
@@ -554,6 +689,18 @@ def call_method(ip, st, recv, name, pos, kws, node):
     if isinstance(recv, Ref) and type(st.heap.get(recv.cid)).__name__ == "PySetCell":
         from .lib_split import set_method
         return set_method(ip, st, recv, name, pos, kws)
+    if isinstance(recv, Ref) and type(st.heap.get(recv.cid)).__name__ == "ValSetCell":
+        from .lib_acc2 import valset_method          # a set of context values (pyvc/lib_acc2.py)
+        return valset_method(ip, st, recv, name, pos, kws)
+    if name == "join" and (isinstance(recv, Str) or (isinstance(recv, Opaque) and recv.sort == "Key")) \
+            and ip.c is not None and ip.c.ghost.get("str_format"):
+        from .lib_graph import str_join          # opt-in: sep.join(<known number of strings>) as a concatenation
+        return str_join(ip, st, recv, pos, kws)
+    if name == "render" and ip.c is not None and ip.c.ghost.get("jinja_abstract") and \
+            ((isinstance(recv, Opaque) and recv.sort == "Val") or (isinstance(recv, Ref) and isinstance(st.heap.get(recv.cid), ValCell))):
+        from .lib_fmt import jinja_render        # opt-in: a jinja2 template object held as a context value (pyvc/lib_fmt.py)
+        from .dicts import dterm
+        return jinja_render(ip, st, dterm(ip, st, recv), pos, kws)
     if name in ("startswith", "replace") and ((isinstance(recv, Opaque) and recv.sort in ("Val", "Key")) or
                                                (isinstance(recv, Ref) and isinstance(st.heap.get(recv.cid), ValCell))):
         # a string method on a symbolic string / on a context item that must be a string (obligation): a function of it
@@ -669,6 +816,8 @@ def list_method(ip, st, recv, name, pos, kws):
             # functional model of the call (content fixed at the call) does not describe that -- not proved, never assumed
             ip.emit("safety", "generator-consumer-non-interference (extend of a list the suspended generator can reach)", st, FALSE)
         src = consume_view(ip, st, pos[0])
+        if getattr(src, "live_cid", None) == recv.cid:
+            raise U("extend of a list by an object that iterates this very list")
         n = reg.l_len(t)
         nt = reg.new("ext", t.sort)
         st.assume(EQ(reg.l_len(nt), ADD(n, src.len)))
@@ -747,6 +896,8 @@ def pylist_method(ip, st, recv, cell, name, pos, kws):
         return [(st, NONE)]
     if name == "extend":
         src = consume_view(ip, st, pos[0])
+        if getattr(src, "live_cid", None) == recv.cid:
+            raise U("extend of a list by an object that iterates this very list")
         if src.items is None and items and not recv.path and all(
                 isinstance(x, Opaque) and x.sort == items[0].sort and x.sort in ("Obj", "V") for x in items):
             # [e0, ..] of abstract objects extended by a sequence of symbolic length: from now on the same list object is
@@ -763,6 +914,12 @@ def pylist_method(ip, st, recv, cell, name, pos, kws):
             st.assume(T("(forall ((%s Int)) (! (=> (and (<= %d %s) (< %s %s)) %s) :pattern (%s)))" % (
                 q2.s, k, q2.s, q2.s, ADD(I(k), src.len).s, body.s, reg.l_get(nt, q2).s), "Bool"))
             st.heap[recv.cid] = LstCell(nt)
+            return [(st, NONE)]
+        if src.items is None and not items and not recv.path and getattr(src, "term", None) is not None \
+                and src.term.sort in (ip.reg.lst("Obj"), ip.reg.lst("V")):
+            # [] extended by a list of abstract objects / flow values of symbolic length: the same list object now holds
+            # exactly the items of that list (only its representation changes, as above)
+            st.heap[recv.cid] = LstCell(src.term)
             return [(st, NONE)]
         if src.items is None:
             raise U("extend of a concrete list by a symbolic sequence")
@@ -859,18 +1016,28 @@ def pydict_method(ip, st, recv, cell, name, pos, kws):
 def str_method(ip, st, recv, name, pos, kws):
     s = recv.s
     if name == "format":
+        if ip.c is not None and ip.c.ghost.get("str_format_abstract"):
+            from .lib_fmt import abstract_format     # opt-in: the text as an uninterpreted function, ValueError modelled
+            return abstract_format(ip, st, recv, pos, kws)
         if ip.c is not None and ip.c.ghost.get("str_format"):
             from .lib_graph import str_format        # opt-in: the text as a concatenation of its formatted fields
             return str_format(ip, st, s, pos, kws)
-        return [(st, Str("<formatted>"))]
+        # the text is not modelled: an unknown string (never a constant: two such texts must not compare equal)
+        return [(st, Opaque(ip.reg.new("formatted", "Key")))]
     if name == "split" and len(pos) == 1 and isinstance(pos[0], Str):
         return [(st, ip.new_cell(st, PyListCell([Str(x) for x in s.split(pos[0].s)])))]
     if name == "join":
-        return [(st, Str("<joined>"))]
+        if len(pos) == 1 and isinstance(pos[0], Ref) and not pos[0].path and isinstance(st.heap.get(pos[0].cid), PyListCell) \
+                and all(isinstance(x, Str) for x in st.heap[pos[0].cid].items):
+            # a list of concrete length whose items are all concrete strings: the text python builds
+            return [(st, Str(s.join(x.s for x in st.heap[pos[0].cid].items)))]
+        return [(st, Opaque(ip.reg.new("joined", "Key")))]
     if name == "startswith" and isinstance(pos[0], Str):
         return [(st, Bool(TRUE if s.startswith(pos[0].s) else FALSE))]
     if name == "count" and isinstance(pos[0], Str):
-        return [(st, Num(I(s.count(pos[0].s))))]
+        n = Num(I(s.count(pos[0].s)))
+        n.exact = True          # (comparisons of it with integer literals are decided syntactically: Interp.py_eq)
+        return [(st, n)]
     if name == "replace" and all(isinstance(p, Str) for p in pos):
         return [(st, Str(s.replace(pos[0].s, pos[1].s)))]
     raise U("str method " + name)
